@@ -4,22 +4,32 @@ CFG = {
         "required_theorems": ["five_f_plus_one_le", "two_quorums_share_gt_f", "commit_timeout_share_subquorum_correct",
                               "conflicting_reports_below_subquorum", "max_faulty_no_overflow", "quorum_no_overflow",
                               "subquorum_no_overflow", "max_faulty_toNat", "quorum_toNat", "subquorum_toNat",
-                              "total_weight_checked"],
+                              "total_weight_checked", "schedule_new_ok_iff", "schedule_new_total",
+                              "schedule_new_rejects_overflow", "schedule_new_thresholds"],
         "technique": "Lean 4 theorems over all UInt64 on definitions regenerated from schedule.rs (translator) + differential run",
         "level_text": "Proof: for every total weight n in [1, 2^64-1] the regenerated max_faulty_weight / quorum_threshold / "
                       "subquorum_threshold satisfy 5f+1<=n, 2(n-f)-n>f, 2(n-f)-n-f=n-3f, 2f<n-3f, and no intermediate "
                       "operation overflows or underflows (checked evaluation never fails; wrapping UInt64 = Nat value). "
                       "The definitions are re-translated from schedule.rs on every run, so the theorems are re-proved "
                       "against the current source; the real functions are also compared with the definitions on ~10^4 weights.",
-        "level_note": "Full strength for the property as stated. Schedule::new's checked_add fold is modelled by hand (total_weight_checked).",
+        "level_note": "Full strength for the property as stated. Schedule::new (the construction-time overflow check) is transcribed by hand "
+                      "(Model/ScheduleNew.lean: duplicate key, zero weight, checked_add of the total, unchecked += of the leader weight, "
+                      "empty / no-leader checks) and compared with the real constructor on every run; theorems schedule_new_ok_iff / "
+                      "schedule_new_total / schedule_new_rejects_overflow: a committee is accepted iff it is well-formed and its TRUE weight "
+                      "fits in 64 bits, and the recorded totals are the true sums (nothing wraps), for every committee, leader split and order.",
         "harness": "c07",
         "n": {"quick": 10000, "thorough": 2000000},
         "rule": "total weights: 1..200, ±6 around powers of two / u64::MAX/{2,3,5}, the top 16 values of u64, and N random "
                 "values with uniformly random bit length; each is one op; all ops are non-trivial (pure function, every "
-                "input yields numbers that are compared); distinct = distinct n",
+                "input yields numbers that are compared); distinct = distinct n. Plus max(200, N/10) `sched` ops: committees of 1..8 "
+                "validators whose weights sum to 2^64-1, 2^64, 2^64+{0..4}, 2^64-1-{0..4}, 2^64+2^k, 3*2^62 (alternating leader / "
+                "non-leader so that each class fits and the whole does not) or are random; random leader flags; 5% each: a zero "
+                "weight, a repeated key, no leader, all leaders, empty, shuffled; Schedule::new is called with real keys",
         "trusted": ["the Rust→Lean expression translation of the three one-line functions (literals, + - * /, calls)"],
         "assumptions": ["u64 arithmetic of the release profile wraps; the checked (`_chk`) definitions additionally show that "
                         "no operation would overflow/underflow, so the dev profile computes the same values"],
-        "explanation": "theorems over the regenerated threshold functions for all n in [1, 2^64-1]; K compares the real "
-                       "functions with the regenerated Lean definitions; S evaluates the inequalities on the real results",
+        "explanation": "theorems over the regenerated threshold functions for all n in [1, 2^64-1] and over the transcription of "
+                       "Schedule::new for every committee; K compares the real functions and the real constructor with the Lean "
+                       "definitions; S evaluates the inequalities on the real results and checks that an accepted committee records "
+                       "its true (128-bit) weight",
     }
